@@ -9,6 +9,8 @@ CONSTANTS
   AllowBad = FALSE
   AllowSplit = TRUE
   AllowRst = FALSE
+  AllowTClose = FALSE
+  AllowCRst = FALSE
   Timeout = 2
   MaxNow = 0
   DrainMode = "inner"
